@@ -648,3 +648,289 @@ Lemma clear_inv s : Inv s -> Inv (b_clear s).
 Proof.
   intros HI. constructor; cbn; try contradiction; try constructor. apply HI.
 Qed.
+
+(* ---------- reset ---------- *)
+(* keys of an association list produced by aset are unique *)
+Fixpoint akeys_nodup (l : list (N * N)) : Prop :=
+  match l with
+  | [] => True
+  | (k, _) :: r => aget k r = None /\ akeys_nodup r
+  end.
+
+Lemma aget_adel_none {V} k k' (l : list (N * V)) : aget k l = None -> aget k (adel k' l) = None.
+Proof.
+  induction l as [|[k2 v] r IH]; cbn [aget adel]; [reflexivity|].
+  destruct (k2 =? k) eqn:E; [discriminate|]. intros H.
+  destruct (k2 =? k'); [apply IH; exact H|]. cbn [aget]. rewrite E. apply IH. exact H.
+Qed.
+
+Lemma akeys_nodup_adel k l : akeys_nodup l -> akeys_nodup (adel k l).
+Proof.
+  induction l as [|[k2 v] r IH]; cbn [adel akeys_nodup]; [auto|].
+  intros [H1 H2]. destruct (k2 =? k); [apply IH; exact H2|].
+  cbn [akeys_nodup]. split; [apply aget_adel_none; exact H1|apply IH; exact H2].
+Qed.
+
+Lemma akeys_nodup_aset k v l : akeys_nodup l -> akeys_nodup (aset k v l).
+Proof.
+  intros H. unfold aset. cbn [akeys_nodup]. split; [apply aget_adel_same|apply akeys_nodup_adel; exact H].
+Qed.
+
+(* invariant with readiness taken w.r.t. an explicit schedule map [sch]
+   (the not-yet-restored suffix of s.scheduled during reset) *)
+Record InvS (sch : list (N * N)) (s : st) : Prop := mkInvS {
+  j_ids : NoDup (map tid (txs s));
+  j_slot : forall t u, In t (txs s) -> In u (txs s) -> tsender t = tsender u -> tseq t = tseq u -> t = u;
+  j_entry : forall t, In t (txs s) -> exists c, aget (tsender t) (senders s) = Some c /\ c <= tseq t;
+  j_mem : forall t, In t (txs s) -> nmem (tid t) (maxh s) = rdy sch (senders s) (tsender t) (tseq t);
+  j_sub : forall j, In j (maxh s) -> exists t, In t (txs s) /\ tid t = j;
+  j_btx : forall t, In t (txs s) -> tseq t <= U64MAX;
+  j_bsched : forall a q, aget a sch = Some q -> q <= U64MAX
+}.
+
+Lemma Inv_InvS s : Inv s -> InvS (sched s) s.
+Proof. intros [H1 H2 H3 H4 H5 H6 H7]. constructor; auto. Qed.
+
+Lemma InvS_id_eq sch s t u : InvS sch s -> In t (txs s) -> In u (txs s) -> tid t = tid u -> t = u.
+Proof.
+  intros HI Ht Hu He.
+  assert (find_id (tid u) (txs s) = Some t) by (apply find_id_unique; [apply HI|exact Ht|exact He]).
+  assert (find_id (tid u) (txs s) = Some u) by (apply find_id_unique; [apply HI|exact Hu|reflexivity]).
+  congruence.
+Qed.
+
+Lemma restore_fields a q s :
+  txs (b_restore a q s) = txs s /\ senders (b_restore a q s) = senders s /\
+  sched (b_restore a q s) = sched s /\ cap (b_restore a q s) = cap s.
+Proof.
+  unfold b_restore. destruct (aget a (senders s)); [|auto].
+  destruct (head a (txs s)); [|auto]. destruct (_ && _); [auto|].
+  destruct (if q <? U64MAX then _ else _); destruct (if tseq t =? n then _ else _); auto.
+Qed.
+
+Lemma restore_invS a q rest s :
+  InvS ((a, q) :: rest) s -> aget a rest = None -> InvS rest (b_restore a q s).
+Proof.
+  intros HI Hn.
+  destruct (restore_fields a q s) as [Ft [Fs [_ _]]].
+  assert (forall b x, aget b rest = Some x -> x <= U64MAX) as Hbs.
+  { intros b x Hb. apply (j_bsched _ _ HI b). cbn [aget]. destruct (a =? b) eqn:E; [|exact Hb].
+    apply N.eqb_eq in E. subst b. congruence. }
+  assert (q <= U64MAX) as Hq.
+  { apply (j_bsched _ _ HI a). cbn [aget]. rewrite N.eqb_refl. reflexivity. }
+  (* readiness: other senders unchanged, sender a switches from "successor of q" to "current seq" *)
+  assert (forall t, tsender t <> a ->
+            rdy ((a, q) :: rest) (senders s) (tsender t) (tseq t) = rdy rest (senders s) (tsender t) (tseq t)) as Hother.
+  { intros t Hne. unfold rdy. cbn [aget]. destruct (a =? tsender t) eqn:E; [lia|reflexivity]. }
+  assert (forall t, tsender t = a ->
+            rdy ((a, q) :: rest) (senders s) (tsender t) (tseq t) =
+            if q =? U64MAX then false else tseq t =? q + 1) as Hold.
+  { intros t He. unfold rdy. cbn [aget]. rewrite He, N.eqb_refl. reflexivity. }
+  assert (forall t c, tsender t = a -> aget a (senders s) = Some c ->
+            rdy rest (senders s) (tsender t) (tseq t) = (tseq t =? c)) as Hnew.
+  { intros t c He Hc. unfold rdy. rewrite He, Hn, Hc. reflexivity. }
+  (* generic closing argument: a new maxh that agrees on membership *)
+  assert (forall mh,
+            (forall t, In t (txs s) -> nmem (tid t) mh = rdy rest (senders s) (tsender t) (tseq t)) ->
+            (forall j, In j mh -> exists t, In t (txs s) /\ tid t = j) ->
+            InvS rest (set_maxh s mh)) as Hclose.
+  { intros mh H1 H2. constructor; cbn [txs senders sched maxh set_maxh]; auto; apply HI. }
+  assert (forall t, In t (txs s) -> tsender t <> a ->
+            nmem (tid t) (maxh s) = rdy rest (senders s) (tsender t) (tseq t)) as Hkeep.
+  { intros t Ht Hne. rewrite (j_mem _ _ HI t Ht). apply Hother. exact Hne. }
+  assert (InvS rest s -> InvS rest (b_restore a q s) \/ True) as _ by auto.
+  unfold b_restore.
+  destruct (aget a (senders s)) as [c|] eqn:Hc.
+  2:{ (* no entry: no transaction of a *)
+    constructor; try apply HI; auto.
+    intros t Ht. destruct (N.eq_dec (tsender t) a) as [He|He]; [|apply Hkeep; auto].
+    destruct (j_entry _ _ HI t Ht) as [c' [H1 _]]. rewrite He in H1. congruence. }
+  destruct (head a (txs s)) as [h|] eqn:Hh.
+  2:{ pose proof (head_none _ _ Hh) as Hnone.
+    constructor; try apply HI; auto. }
+  apply head_some in Hh as [Hhin [Hha Hhmin]].
+  assert (forall t, In t (txs s) -> tsender t = a -> c <= tseq t) as Hcle.
+  { intros t Ht He. destruct (j_entry _ _ HI t Ht) as [c' [H1 H2]]. rewrite He in H1. congruence. }
+  destruct ((q <? U64MAX) && (c =? q + 1)) eqn:Eret.
+  { (* sender already forwarded to q+1: nothing to do *)
+    apply andb_true_iff in Eret as [E1 E2].
+    constructor; try apply HI; auto.
+    intros t Ht. destruct (N.eq_dec (tsender t) a) as [He|He]; [|apply Hkeep; auto].
+    rewrite (j_mem _ _ HI t Ht), (Hold t He), (Hnew t c He eq_refl).
+    destruct (q =? U64MAX) eqn:E3; [lia|]. destruct (tseq t =? q + 1) eqn:E4, (tseq t =? c) eqn:E5; try reflexivity; lia. }
+  (* characterise [first] and [current] *)
+  assert (forall t, In t (txs s) -> tsender t = a -> tseq t = c -> t = h /\ tseq h = c) as Hfirst.
+  { intros t Ht He Hs. pose proof (Hhmin t Ht He). pose proof (Hcle h Hhin Hha).
+    assert (tseq h = c) by lia. split; [|assumption]. apply (j_slot _ _ HI); auto; congruence. }
+  assert (forall t, In t (txs s) -> tsender t = a ->
+            nmem (tid t) (maxh s) = if q =? U64MAX then false else tseq t =? q + 1) as Hwas.
+  { intros t Ht He. rewrite (j_mem _ _ HI t Ht). apply Hold. exact He. }
+  destruct (q <? U64MAX) eqn:Eq.
+  - (* q < MAX: current = the transaction at q+1 *)
+    assert ((q =? U64MAX) = false) as Eq' by lia.
+    assert ((c =? q + 1) = false) as Ec by (cbn in Eret; exact Eret).
+    destruct (get_seq a (q + 1) (txs s)) as [cu|] eqn:Hg.
+    + apply get_seq_some in Hg as [Hcu [Hcua Hcuq]].
+      destruct (tseq h =? c) eqn:Ehc.
+      * (* replace current by first *)
+        apply Hclose.
+        { intros t Ht. rewrite nmem_cons, nmem_nremove.
+          destruct (N.eq_dec (tsender t) a) as [He|He].
+          - rewrite (Hnew t c He eq_refl), (Hwas t Ht He), Eq'.
+            destruct (tid t =? tid h) eqn:E1.
+            + assert (t = h) by (apply (InvS_id_eq _ _ _ _ HI); auto; lia). subst t. cbn [orb]. lia.
+            + cbn [orb]. destruct (tseq t =? c) eqn:E2.
+              { exfalso. destruct (Hfirst t Ht He) as [-> _]; [lia|]. lia. }
+              destruct (tseq t =? q + 1) eqn:E3; [|reflexivity].
+              assert (t = cu) by (apply (j_slot _ _ HI); auto; lia). subst t.
+              rewrite N.eqb_refl. reflexivity.
+          - rewrite <- (Hkeep t Ht He).
+            destruct (tid t =? tid h) eqn:E1.
+            { exfalso. assert (t = h) by (apply (InvS_id_eq _ _ _ _ HI); auto; lia). subst t. contradiction. }
+            destruct (tid t =? tid cu) eqn:E2.
+            { exfalso. assert (t = cu) by (apply (InvS_id_eq _ _ _ _ HI); auto; lia). subst t. contradiction. }
+            cbn [orb negb]. rewrite andb_true_r. reflexivity. }
+        { intros j [<-|Hj]; [exists h; auto|]. apply In_nremove in Hj as [Hj _]. apply (j_sub _ _ HI j Hj). }
+      * (* remove current *)
+        apply Hclose.
+        { intros t Ht. rewrite nmem_nremove.
+          destruct (N.eq_dec (tsender t) a) as [He|He].
+          - rewrite (Hnew t c He eq_refl), (Hwas t Ht He), Eq'.
+            destruct (tseq t =? c) eqn:E2.
+            { exfalso. destruct (Hfirst t Ht He) as [_ Hx]; lia. }
+            destruct (tseq t =? q + 1) eqn:E3; [|reflexivity].
+            assert (t = cu) by (apply (j_slot _ _ HI); auto; lia). subst t.
+            rewrite N.eqb_refl. reflexivity.
+          - rewrite <- (Hkeep t Ht He).
+            destruct (tid t =? tid cu) eqn:E2.
+            { exfalso. assert (t = cu) by (apply (InvS_id_eq _ _ _ _ HI); auto; lia). subst t. contradiction. }
+            cbn [negb]. rewrite andb_true_r. reflexivity. }
+        { intros j Hj. apply In_nremove in Hj as [Hj _]. apply (j_sub _ _ HI j Hj). }
+    + destruct (tseq h =? c) eqn:Ehc.
+      * (* push first *)
+        apply Hclose.
+        { intros t Ht. rewrite nmem_cons.
+          destruct (N.eq_dec (tsender t) a) as [He|He].
+          - rewrite (Hnew t c He eq_refl), (Hwas t Ht He), Eq'.
+            assert ((tseq t =? q + 1) = false) as E3.
+            { destruct (tseq t =? q + 1) eqn:E3; [|reflexivity]. exfalso. eapply get_seq_none; eauto. lia. }
+            rewrite E3, orb_false_r.
+            destruct (tid t =? tid h) eqn:E1.
+            + assert (t = h) by (apply (InvS_id_eq _ _ _ _ HI); auto; lia). subst t. lia.
+            + destruct (tseq t =? c) eqn:E2; [|reflexivity].
+              exfalso. destruct (Hfirst t Ht He) as [-> _]; [lia|]. lia.
+          - rewrite <- (Hkeep t Ht He).
+            destruct (tid t =? tid h) eqn:E1; [|reflexivity].
+            exfalso. assert (t = h) by (apply (InvS_id_eq _ _ _ _ HI); auto; lia). subst t. contradiction. }
+        { intros j [<-|Hj]; [exists h; auto|]. apply (j_sub _ _ HI j Hj). }
+      * (* nothing *)
+        constructor; try apply HI; auto.
+        intros t Ht. destruct (N.eq_dec (tsender t) a) as [He|He]; [|apply Hkeep; auto].
+        rewrite (Hnew t c He eq_refl), (Hwas t Ht He), Eq'.
+        assert ((tseq t =? q + 1) = false) as E3.
+        { destruct (tseq t =? q + 1) eqn:E3; [|reflexivity]. exfalso. eapply get_seq_none; eauto. lia. }
+        rewrite E3. destruct (tseq t =? c) eqn:E2; [|reflexivity].
+        exfalso. destruct (Hfirst t Ht He) as [_ Hx]; lia.
+  - (* q = MAX: no current *)
+    assert ((q =? U64MAX) = true) as Eq' by lia.
+    destruct (tseq h =? c) eqn:Ehc.
+    + apply Hclose.
+      { intros t Ht. rewrite nmem_cons.
+        destruct (N.eq_dec (tsender t) a) as [He|He].
+        - rewrite (Hnew t c He eq_refl), (Hwas t Ht He), Eq', orb_false_r.
+          destruct (tid t =? tid h) eqn:E1.
+          + assert (t = h) by (apply (InvS_id_eq _ _ _ _ HI); auto; lia). subst t. lia.
+          + destruct (tseq t =? c) eqn:E2; [|reflexivity].
+            exfalso. destruct (Hfirst t Ht He) as [-> _]; [lia|]. lia.
+        - rewrite <- (Hkeep t Ht He).
+          destruct (tid t =? tid h) eqn:E1; [|reflexivity].
+          exfalso. assert (t = h) by (apply (InvS_id_eq _ _ _ _ HI); auto; lia). subst t. contradiction. }
+      { intros j [<-|Hj]; [exists h; auto|]. apply (j_sub _ _ HI j Hj). }
+    + constructor; try apply HI; auto.
+      intros t Ht. destruct (N.eq_dec (tsender t) a) as [He|He]; [|apply Hkeep; auto].
+      rewrite (Hnew t c He eq_refl), (Hwas t Ht He), Eq'.
+      destruct (tseq t =? c) eqn:E2; [|reflexivity].
+      exfalso. destruct (Hfirst t Ht He) as [_ Hx]; lia.
+Qed.
+
+Lemma restore_fold l : forall s,
+  akeys_nodup l -> InvS l s ->
+  InvS [] (fold_left (fun acc e => b_restore (fst e) (snd e) acc) l s).
+Proof.
+  induction l as [|[a q] rest IH]; cbn [fold_left fst snd akeys_nodup]; intros s Hk HI; [exact HI|].
+  destruct Hk as [Hk1 Hk2]. apply IH; [exact Hk2|]. apply restore_invS; assumption.
+Qed.
+
+Lemma reset_inv s : akeys_nodup (sched s) -> Inv s -> Inv (b_reset s).
+Proof.
+  intros Hk HI. pose proof (restore_fold (sched s) s Hk (Inv_InvS s HI)) as HJ.
+  unfold b_reset. destruct HJ as [H1 H2 H3 H4 H5 H6 H7].
+  constructor; cbn [txs senders sched maxh set_sched]; auto; cbn; discriminate.
+Qed.
+
+(* ---------- the schedule map has unique keys ---------- *)
+Definition SK (s : st) : Prop := akeys_nodup (sched s).
+
+Lemma schedule_picks_sk picks : forall s s1,
+  SK s -> b_schedule_picks U64MAX picks s = Some s1 -> SK s1.
+Proof.
+  induction picks as [|i r IH]; cbn [b_schedule_picks]; intros s s1 HK H.
+  - injection H as <-. exact HK.
+  - destruct (b_schedule_one U64MAX i s) as [s2|] eqn:E; [|discriminate].
+    eapply IH; [|exact H]. unfold b_schedule_one in E.
+    destruct (negb _); [discriminate|]. destruct (find_id i (txs s)); [|discriminate].
+    destruct (negb _); [discriminate|]. injection E as <-.
+    unfold SK. cbn [sched set_sched]. apply akeys_nodup_aset. exact HK.
+Qed.
+
+Lemma forward_sched a q s : sched (b_forward a q s) = sched s.
+Proof.
+  unfold b_forward. destruct (aget a (senders s)); [|reflexivity]. destruct (q <=? n); [reflexivity|].
+  destruct (head a _) as [f|]; [destruct (negb _ && _)|]; cbn [sched set_maxh]; rewrite drop_sched; reflexivity.
+Qed.
+
+Lemma step_sk s o : SK s -> SK (snd (b_step U64MAX s o)).
+Proof.
+  intros HK. destruct o as [t q e|lim picks| |i|a q|]; cbn [b_step snd].
+  - unfold b_add. destruct (find_id (tid t) (txs s)); [exact HK|].
+    destruct (aget (tsender t) (senders s)).
+    + destruct (_ <? _); [exact HK|]. destruct (get_seq _ _ _).
+      * destruct (_ <=? _); [exact HK|]. unfold b_replace. destruct (nmem _ _); exact HK.
+      * unfold b_insert. destruct (is_ready s t); cbn [txs set_txs set_maxh cap].
+        all: destruct (_ <=? _); [exact HK|]; destruct (find_id e _); [|exact HK];
+          destruct (forallb _ _); [|exact HK]; unfold SK, b_remove; cbn [snd]; rewrite drop_sched; exact HK.
+    + destruct (_ <? _); [exact HK|]. cbn [txs set_senders]. destruct (get_seq _ _ _).
+      * destruct (_ <=? _); [exact HK|]. unfold b_replace. destruct (nmem _ _); exact HK.
+      * unfold b_insert. destruct (is_ready _ t); cbn [txs set_txs set_maxh set_senders cap].
+        all: destruct (_ <=? _); [exact HK|]; destruct (find_id e _); [|exact HK];
+          destruct (forallb _ _); [|exact HK]; unfold SK, b_remove; cbn [snd]; rewrite drop_sched; exact HK.
+  - unfold b_schedule. destruct (_ <? _); [exact HK|].
+    destruct (b_schedule_picks U64MAX picks s) eqn:E; [|exact HK].
+    destruct (_ || _); [|exact HK]. cbn [snd]. eapply schedule_picks_sk; eauto.
+  - unfold SK, b_reset. cbn. exact I.
+  - unfold b_used. destruct (find_id i (txs s)); [|exact HK].
+    unfold SK. destruct (_ <? _); [rewrite forward_sched|]; unfold b_remove; rewrite drop_sched; exact HK.
+  - unfold SK. rewrite forward_sched. exact HK.
+  - exact HK.
+Qed.
+
+(* ---------- every reachable state satisfies the invariant ---------- *)
+Lemma step_inv s o : op_ok o -> SK s -> Inv s -> Inv (snd (b_step U64MAX s o)).
+Proof.
+  intros Hok HK HI. destruct o as [t q e|lim picks| |i|a q|]; cbn [b_step snd].
+  - apply add_inv; assumption.
+  - apply schedule_inv; assumption.
+  - apply reset_inv; assumption.
+  - apply used_inv; assumption.
+  - apply forward_inv; assumption.
+  - apply clear_inv; assumption.
+Qed.
+
+Lemma run_inv ops : forall s,
+  Forall op_ok ops -> SK s -> Inv s ->
+  SK (run (b_step U64MAX) s ops) /\ Inv (run (b_step U64MAX) s ops).
+Proof.
+  unfold run. induction ops as [|o r IH]; cbn [fold_left]; intros s Hok HK HI; [auto|].
+  inversion Hok as [|x xs Ho Hr]; subst.
+  apply IH; [exact Hr|apply step_sk; exact HK|apply step_inv; assumption].
+Qed.
